@@ -34,11 +34,13 @@ SHARD = 60
 WORKERS = 6
 RULE = ('seeded histories of 20-90 ops over 0-8 endpoints: configurations min_size 0..3, max_size 1..6 or 2^31, load bands '
         '(0.5,2.0), narrow, non-dyadic and degenerate ones; op streams random / ramp (traffic up and down over virtual minutes) / '
-        'steady (constant outstanding) / failures (opens that fail, channels closing, leaves of pending, idle and active '
+        'drain (busy active members leave or are contracted with requests in flight that complete afterwards, then long light traffic) / steady (constant outstanding) / failures (opens that fail, channels closing, leaves of pending, idle and active '
         'members, duplicate joins, unknown leaves) / jitter rounds, clock steps 0..60 s incl. backwards steps; '
         'non-trivial = the history contains at least one load-driven expansion or contraction; distinct by canonical JSON of '
         '(case, observation)')
-TRUSTED = ['harness/c06_world.py: mock member channels, scripted random, virtual clock, recording Ema subclass, '
+TRUSTED = ['the harness own count of outstanding requests (held by the mock member channels) is the reference for `_total`, in the monitor '
+           '(with an independent 5 s EMA) and in the model comparison (o_total)',
+           'harness/c06_world.py: mock member channels, scripted random, virtual clock, recording Ema subclass, '
            'class-level tracing wrappers on HeapBalancerSink._AddSink/_RemoveSink and the _OnNodeDown/_OnGet/_OnPut hooks',
            'the heap base class is abstracted to its interface (active list in _AddSink order); its internals are C03-C05',
            'independent Python monitor in harness/props/c06.py']
@@ -107,7 +109,7 @@ def _cfg(r, kind):
   if r.random() < 0.15:
     lo = round(r.uniform(0.0, 1.5), 3)
     hi = round(lo + r.uniform(0.01, 3.0), 3)
-  if kind in ('steady', 'ramp') and r.random() < 0.7:
+  if kind in ('steady', 'ramp', 'drain') and r.random() < 0.7:
     lo, hi = 0.5, 2.0
     n = max(n, 3)
     mn = max(mn, 1)
@@ -148,6 +150,33 @@ def _gen_ops(r, kind, cfg):
     for _ in range(up + 2):
       ops.append(_tick(r, True))
       ops.append({'op': 'put', 'k': r.randrange(16)})
+      if r.random() < 0.3:
+        ops.append(_opendone(r, 0.0))
+    return ops
+  if kind == 'drain':
+    # busy active members are removed (leave, or contraction while draining) with requests still in flight; those
+    # requests complete afterwards; then a long period of light traffic during which the aperture must follow the
+    # REAL smoothed load (a completion that is not accounted for stays in the total for ever)
+    up = r.choice([6, 10, 16])
+    for _ in range(up):
+      ops.append(_tick(r, True))
+      ops.append({'op': 'get'})
+      ops.append(_opendone(r, 0.0))
+    n = len(cfg['init'])
+    for ep in r.sample(range(max(n, 1)), min(n, r.choice([1, 2, 3]))):
+      ops.append({'op': 'leave', 'ep': ep})
+      ops.append(_opendone(r, 0.0))
+    for _ in range(up + 2):
+      ops.append({'op': 'put', 'k': r.randrange(16)})
+      if r.random() < 0.5:
+        ops.append(_tick(r, True))
+      if r.random() < 0.3:
+        ops.append(_opendone(r, 0.0))
+    for _ in range(r.choice([10, 20])):
+      ops.append({'op': 'tick', 'dt': 5.0})
+      ops.append({'op': 'get'})
+      ops.append({'op': 'tick', 'dt': 1.0})
+      ops.append({'op': 'put', 'k': 0})
       if r.random() < 0.3:
         ops.append(_opendone(r, 0.0))
     return ops
@@ -202,7 +231,7 @@ def _mk(seed, i, kind):
 
 def gen_cases(tier, seed):
   n = 600 if tier == 'quick' else 5000
-  kinds = ['random', 'random', 'ramp', 'ramp', 'steady', 'fail', 'fail', 'jitter']
+  kinds = ['random', 'random', 'ramp', 'drain', 'steady', 'fail', 'fail', 'jitter', 'ramp']
   out = [_mk(seed, i, kinds[i % len(kinds)]) for i in range(n)]
   if tier == 'thorough':
     out += _small_scope()
@@ -226,7 +255,7 @@ def _small_scope():
 
 def search_cases(tier, seed, diverging):
   out = []
-  kinds = ['ramp', 'steady', 'fail', 'jitter', 'random']
+  kinds = ['ramp', 'drain', 'steady', 'fail', 'jitter', 'random']
   for i in range(1500):
     out.append(_mk(seed + 104729, i, kinds[i % len(kinds)]))
   return out
@@ -426,7 +455,12 @@ def monitor(case, obs):
 
   prev = obs['init']['snap']
   partition('after open', prev)
-  outstanding = 0        # requests handed to a member and not yet returned (counted at the heap's get/put hooks)
+  # independent account of the smoothed load: the harness' own count of requests it handed to the sink and has not
+  # completed yet (NOT derived from the _OnGet/_OnPut hooks), and an EMA of it with the documented 5 s window sampled at
+  # the same virtual instants (monotonic clock)
+  import math
+  t0 = [(_snapinfo(e).get('t')) for e in obs['init']['events'] if _snapinfo(e).get('t') is not None]
+  indep = {'v': None, 't': t0[0] if t0 else 1000.0}     # the monotonic clock starts when the sink is built
   for i, (op, st) in enumerate(zip(case['ops'], obs['steps'])):
     tag = 'op %d %s' % (i, op['op'])
     snap = st['snap']
@@ -453,16 +487,31 @@ def monitor(case, obs):
       avg = None
       if kind == 'onget' and st.get('endpoint') is not None and st['endpoint'] not in [c[0] for c in cur]:
         add('traffic-to-inactive-member', '%s: request sent to %s, active %s' % (tag, st['endpoint'], [c[0] for c in cur]))
-      if kind == 'onget':
-        outstanding += 1
-      elif kind == 'onput':
-        outstanding -= 1
+      outstanding = None
+      if kind == 'onget' and info.get('out') is not None:
+        outstanding = info['out'] + 1      # the request being dispatched is not yet held by the member channel
+      elif kind == 'onput' and info.get('out') is not None:
+        outstanding = info['out']          # the harness took the request off its books before completing it
       for e in evs:
         if e[0] == 'ema':
           avg = e[4]
           pv, sample = e[1], e[2]
-          if kind in ('onget', 'onput') and sample != outstanding:
-            add('smoothed-sample-not-outstanding', '%s: the EMA was fed %r but %d requests are outstanding' % (tag, sample, outstanding))
+          if outstanding is not None:
+            if sample != outstanding:
+              add('smoothed-sample-not-outstanding', '%s: the EMA was fed %r but %d requests are outstanding' % (tag, sample, outstanding))
+            t = _snapinfo(e).get('t')
+            if t is not None:
+              t = max(t, indep['t'])
+              if indep['v'] is None:
+                indep['v'] = float(outstanding)
+                indep['t'] = t
+              else:
+                wgt = math.exp(-(t - indep['t']) / 5.0)
+                indep['v'] = outstanding * (1 - wgt) + indep['v'] * wgt
+                indep['t'] = t
+              if abs(avg - indep['v']) > 1e-9 * (1 + abs(indep['v'])):
+                add('smoothed-load-not-ema-of-outstanding', '%s: the sink smoothed load is %r, an independent 5 s EMA of the real outstanding count (%d now) gives %r'
+                    % (tag, avg, outstanding, indep['v']))
           if pv is not None:
             a, b = min(pv, sample), max(pv, sample)
             if not (a - 1e-9 * (1 + abs(a)) <= avg <= b + 1e-9 * (1 + abs(b))):
@@ -653,7 +702,8 @@ def labels(case, obs):
 
 def _obs_term(snap):
   act = C.lst(['((%d)%%Z, (%d)%%Z)' % (a[0], a[1] if a[1] is not None else 0) for a in snap['active']])
-  return '{| o_active := %s; o_idle := %s; o_pending := %s |}' % (act, C.zlist(snap['idle'] or []), C.zlist(snap['pending'] or []))
+  return '{| o_active := %s; o_idle := %s; o_pending := %s; o_total := (%d)%%Z |}' % (
+      act, C.zlist(snap['idle'] or []), C.zlist(snap['pending'] or []), snap['outstanding'])
 
 
 def _ties(case, obs):
